@@ -6,6 +6,7 @@ package props
 import (
 	"bytes"
 	"encoding/json"
+	"math"
 	mxj "github.com/clbanning/mxj/v2"
 	"reflect"
 	"sort"
@@ -28,7 +29,7 @@ var shapeKeys = []string{"a", "b", "c", "d", "k", "list", "sub", "items"}
 var oddKeys = []string{"doc", "object", "element", "-id", "#text", "K", "k1", "ключ", "a-b", "_seq", "#seq", "-", "A", "a]", "Doc", "k ", " k", "k\t", "\u00a0k", "k\u2028", "0", "1", "k%d",
 	// keys that a path, sub-key or pair language with a few more features could mistake for syntax: a trailing backslash
 	// (an escape?), a leading @ $ ~ = (attribute shorthand, reference, operator?), all digits (an index?)
-	"k\\", "@type", "$ref", "~k", "=k", "2023", "a,b", "k?", "!x"}
+	"k\\", "@type", "$ref", "~k", "=k", "2023", "a,b", "k?", "!x", "$", "@id", "object", "stream"}
 
 func drawFieldKey(t *rapid.T) string {
 	if rapid.IntRange(0, 11).Draw(t, "oddkey") == 0 {
@@ -72,7 +73,11 @@ var scalarStrings = []string{"x", "y", "", "z z", "5%", "%d", "Infinity", "-Infi
 func instScalar(t *rapid.T) interface{} {
 	switch rapid.IntRange(0, 5).Draw(t, "sc") {
 	case 0:
-		return float64(rapid.IntRange(0, 5).Draw(t, "f"))
+		f := float64(rapid.IntRange(0, 5).Draw(t, "f"))
+		if f == 5 {
+			return math.Copysign(0, -1) // negative zero: equal to 0 for == and DeepEqual, spelled -0
+		}
+		return f
 	case 1:
 		return rapid.Bool().Draw(t, "b")
 	case 2:
@@ -272,6 +277,10 @@ func boostWide(t *rapid.T) (map[string]interface{}, []Step) {
 	k1 := rapid.SampledFrom(shapeKeys).Draw(t, "k1")
 	k2 := rapid.SampledFrom(shapeKeys).Draw(t, "k2")
 	n := rapid.IntRange(30, 80).Draw(t, "n")
+	if rapid.Bool().Draw(t, "exactsize") {
+		// exactly the default result capacity (32), its neighbours, and the sizes SetArraySize is called with elsewhere
+		n = rapid.SampledFrom([]int{31, 32, 32, 33, 40, 63, 64, 65, 100, 128}).Draw(t, "nexact")
+	}
 	l := make([]interface{}, n)
 	asMaps := rapid.Bool().Draw(t, "asmaps")
 	for i := range l {
